@@ -32,11 +32,15 @@ def bisect_crash(hx, crash):
         f = os.path.join(d, "in.json")
         u = dict(inputs[k]) if isinstance(inputs[k], dict) else inputs[k]
         json.dump([u], open(f, "w"))
-        p = core.run_hx([hx, "-replay", f, "-out", d])
-        if p.returncode != 0:
-            err = p.stderr or ""
-            m = err.find("panic:")
-            return (inputs[k], err[max(m, 0): max(m, 0) + 1500])
+        # a death that depends on how goroutines interleave does not repeat on every run: each input gets a few runs
+        for _ in range(4):
+            p = core.run_hx([hx, "-replay", f, "-out", d])
+            if p.returncode != 0:
+                err = p.stderr or ""
+                m = err.find("panic:")
+                if m < 0:
+                    m = err.find("fatal error:")
+                return (inputs[k], err[max(m, 0): max(m, 0) + 1500])
         return None
 
     with cf.ThreadPoolExecutor(max_workers=8) as ex:
